@@ -285,4 +285,62 @@ theorem scanMsg_all {S : Schema} : ∀ (n : Nat) (m : Msg), sizeOf m ≤ n → S
 
 theorem scanMsg (S : Schema) (m : Msg) : ScanMsg S m := scanMsg_all (sizeOf m) m (Nat.le_refl _)
 
+/-- the end tag closes the group: the loop returns the accounted length plus the tag -/
+theorem groupLen_endTag {num : Nat} (h1 : 1 ≤ num) (h2 : num < 2 ^ 31) (d : Int) (acc : Nat) (tail : List Byte) :
+    ∀ fuel, 1 ≤ fuel → groupLen fuel num (tagBytes num 4 ++ tail) d acc = some (.ok (acc + (tagBytes num 4).length)) := by
+  intro fuel hf
+  cases fuel with
+  | zero => omega
+  | succ fu =>
+    conv => lhs; unfold groupLen
+    unfold tagBytes
+    rw [decTag_enc h1 h2 (by omega)]
+    simp only [if_true, ne_eq, not_true_eq_false, if_false]
+
+/-- **the wire-level group facts hold for every schema** -/
+theorem groupScanOK (S : Schema) : GroupScanOK S := by
+  intro mi f g sub rest hfind hgrp hg h1 h2 hwf
+  have h2' : f.num < 2 ^ 31 := by unfold maxValidNumber at h2; omega
+  simp only [cwfVal, hgrp, if_true, Bool.and_eq_true, decide_eq_true_eq] at hwf
+  obtain ⟨_, hg0, hsub⟩ := hwf
+  have hscan := scanMsg S sub f.sub (g - 1) hsub
+  have e : g - 1 + 1 = g := by omega
+  rw [e] at hscan
+  generalize encMsg S f.sub sub = body at hscan ⊢
+  -- the group loop at budget g
+  have hloop : ∀ fuel, 2 * (body ++ (tagBytes f.num 4 ++ rest)).length + 1 ≤ fuel →
+      groupLen fuel f.num (body ++ (tagBytes f.num 4 ++ rest)) g 0 =
+        some (.ok (body.length + (tagBytes f.num 4).length)) := by
+    apply hscan f.num 0 (tagBytes f.num 4 ++ rest)
+    intro fuel hf
+    rw [groupLen_endTag h1 h2' g _ rest fuel (by omega), Nat.zero_add]
+  have hcons : consumeFieldValue f.num 3 ((body ++ tagBytes f.num 4) ++ rest) =
+      .ok (body ++ tagBytes f.num 4).length := by
+    unfold consumeFieldValue Spec.fuelFor
+    have hfv : fieldValueLen (2 * ((body ++ tagBytes f.num 4) ++ rest).length + 2) f.num 3
+        ((body ++ tagBytes f.num 4) ++ rest) defaultRecursionLimit =
+        some (.ok (body ++ tagBytes f.num 4).length) := by
+      unfold fieldValueLen
+      have : ¬ defaultRecursionLimit < 0 := by unfold defaultRecursionLimit; omega
+      simp only [this, if_false]
+      have := (fieldValueLen_mono _).2 _ _ _ _ _
+        (hloop (2 * ((body ++ tagBytes f.num 4) ++ rest).length + 1) (by simp only [List.append_assoc]; omega))
+        (2 * ((body ++ tagBytes f.num 4) ++ rest).length + 1) defaultRecursionLimit [] (Nat.le_refl _) hg
+      simpa only [List.append_nil, List.append_assoc, List.length_append] using this
+    rw [hfv]
+  refine ⟨?_, hcons⟩
+  unfold decSubBytes
+  simp only [hgrp, if_true, ne_eq, not_true_eq_false, if_false]
+  unfold consumeGroup
+  rw [hcons]
+  simp only [List.take_left]
+  obtain ⟨init, x, he, hx⟩ := encVarint_last (encTag f.num 4) (by unfold encTag; omega)
+  have hs : stripZeros7 (body ++ tagBytes f.num 4) = body ++ tagBytes f.num 4 := by
+    unfold tagBytes; rw [he, ← List.append_assoc]; exact stripZeros7_snoc _ _ hx
+  rw [hs]
+  have hl : (body ++ tagBytes f.num 4).length - sizeVarint (encTag f.num 0) = body.length := by
+    have := tag_length f.num 4 0
+    unfold tagBytes sizeVarint; simp only [List.length_append]; omega
+  rw [hl, List.take_left]
+
 end Pb
